@@ -49,7 +49,7 @@ m = {
               "kind_free_text": "repository-specific static analyser (Go, x/tools v0.29.0): type-checked AST rules, go/ssa dataflow, guard dominance, constant tables; loads /repo's working tree on every run"}],
  "checks": checks,
  "not_applicable": [{"property_id": i, "reason": na_reasons.get(i, NA_DEFAULT)} for i in ids if i not in claimed],
- "notes": "All claims are level 'other': structural necessary conditions decided from source; see DESIGN.md for what each check does not decide. quick = default build config; thorough = also -tags nodebug.",
+ "notes": "All claims are level 'other': structural necessary conditions decided from source; see DESIGN.md for what each check does not decide. quick = default build config; thorough = the same rules also under -tags nodebug and under GOARCH=386 (32-bit int for the type checker), plus a self-audit of the checker (catalogued mutants and independently seeded changes must be reported, behaviour-preserving rewrites must stay silent; on scratch copies outside /repo and /verif, removed at once).",
 }
 json.dump(m, open(os.path.join(V, 'MANIFEST.json'), 'w'), indent=1)
 print("claimed:", sorted(claimed.keys()))
